@@ -63,6 +63,7 @@ pub fn scope_family(prop: &str, quick: bool, out: &mut Vec<Fail>) -> usize {
             for name in ["T", "B"] {
                 for uses in &seqs {
                     k += 1;
+                    if crate::shard_skip(k / 2) { continue; }
                     let ptr = if k % 2 == 0 { 4 } else { 8 };
                     let mut types = std::collections::BTreeMap::new();
                     for (m, defs) in PROVIDERS { for (t, s) in *defs { types.insert(format!("{m}::{t}"), *s); } }
